@@ -96,6 +96,9 @@ class Tr(object):
       return env[n.id]
     if isinstance(n, ast.Constant) and isinstance(n.value, int) and not isinstance(n.value, bool):
       return '(%d)' % n.value, 'Z'
+    if isinstance(n, ast.UnaryOp) and isinstance(n.op, ast.USub) and isinstance(n.operand, ast.Constant) and \
+       isinstance(n.operand.value, int) and not isinstance(n.operand.value, bool):
+      return '(-%d)' % n.operand.value, 'Z'
     if isinstance(n, ast.Attribute):
       d = dotted(n)
       if d in self.attrs:
